@@ -265,6 +265,8 @@ def run_one(w, sc, stats):
     if "hupfail" in sc:
         w.extra_env = {"VSHIM_PAUSE": "send.qmail-send|control/virtualdomains|2"}     # the re-read after the SECOND HUP
     try:
+        if "crash" in sc:
+            return crash_between_configurations(w, sc, stats)
         w.start()
         ev = w.wait_event()
         if ev[0] != "Q":
@@ -358,6 +360,57 @@ def run_one(w, sc, stats):
         w.kill_all()
 
 
+def crash_between_configurations(w, sc, stats):
+    """the machine stops before the daemon's k-th mutating call in the middle of the pre-processing pass; the administrator changes the control
+    files before it comes back. A pass that had not been completed (todo/<n> still there) is repeated from scratch under the files then in
+    force: what it leaves in local/<n> and remote/<n> is the documented routing of exactly this envelope - nothing of the interrupted pass
+    survives next to it (added after seeded change C10-M)."""
+    L = lambda s_: s_.encode("latin-1")
+    k = sc["crash"]["k"]
+    w.start(crash="send.qmail-send:%d" % k)
+    ev = w.wait_event()
+    if ev[0] != "Q" or os.path.exists(w.crashflag):
+        stats.cls("crash_before_injection")
+        return None, False
+    rc, n = w.inject(L(sc["sender"]), [L(r) for r in sc["rcpts"]], b"Subject: x\n\nb\n")
+    if rc != 0 or n is None:
+        return None, False
+    w.resume()
+    try:
+        ev = w.wait_event()
+    except qworld.Inconclusive:
+        if not os.path.exists(w.crashflag):
+            raise
+    crashed = os.path.exists(w.crashflag)
+    w.kill_all()
+    if not crashed:
+        stats.cls("crash_point_beyond_the_pass")
+        return None, False
+    repeated = os.path.exists(w.h.qpath("todo", n))
+    for name, val in sc["crash"]["controls"].items():
+        w.h.control(name, val)
+    w.start()
+    ev = w.wait_event()
+    if ev[0] != "Q":
+        return "daemon did not come back after the crash: %r" % (ev,), True
+    ctl = dict(sc["controls"], **sc["crash"]["controls"]) if repeated else sc["controls"]
+    stats.cls("crash_in_pass_then_other_controls" if repeated else "crash_after_pass_then_other_controls")
+    v, nt = observe(w, n, [L(r) for r in sc["rcpts"]], L(sc["sender"]), cfg_of(ctl), stats,
+                    "message whose pre-processing was interrupted by a crash (pass %s, control files changed before the restart)" % ("repeated" if repeated else "had been completed"))
+    return v, True
+
+
+def crash_fixed():
+    out = []
+    c1 = {"me": "me.test\n", "locals": "a.example\n", "virtualdomains": "c.test:vuser\n"}
+    for c2, rc in (({"locals": "a.example\nmoved.example\n"}, ["joe@a.example", "bob@moved.example"]),          # remote channel empties
+                   ({"locals": "\n", "virtualdomains": "\n"}, ["joe@a.example", "x@c.test", "r@far.test"]),       # local channel empties
+                   ({"virtualdomains": "c.test:other\n"}, ["x@c.test", "r@far.test"])):                        # same channels, other tag
+        for k in range(0, 26):
+            out.append({"controls": c1, "sender": "s@other.test", "rcpts": rc, "crash": {"k": k, "controls": c2}})
+    return out
+
+
 def worker(job):
     tree, wid, seed, nex, fixed = job
     stats = vlib.Stats()
@@ -416,7 +469,7 @@ def run(ctx):
     sandbox.ensure_shim()
     tree = vlib.Tree().make("qmail-queue", "qmail-send", "qmail-clean")
     nw = vlib.NCPU
-    fixed = wide_fixed() + alphabet_fixed()
+    fixed = wide_fixed() + alphabet_fixed() + crash_fixed()
     d = os.path.join(vlib.VERIF, "corpus", "C10", "regress")
     if os.path.isdir(d):
         for f in sorted(os.listdir(d)):
